@@ -198,6 +198,13 @@ int lltd_port_send_frame(void *ctx, const void *frame, size_t len) {
 }
 
 #define VIF(ctx) ((vif *)(ctx))
+static bool getter_fails(vif *v, uint32_t bit) {
+    v->calls_mask |= bit;
+    v->calls[__builtin_ctz(bit) & 15]++;
+    if (v->fail & bit) return true;
+    if ((v->fail_nth_mask & bit) && v->fail_nth > 0 && --v->fail_nth == 0) return true;
+    return false;
+}
 #ifdef VPORT_TLS
 #define GCALL(bit) ((void)0)   /* no shared writes from receive threads */
 #else
@@ -207,8 +214,7 @@ int lltd_port_send_frame(void *ctx, const void *frame, size_t len) {
 int lltd_port_get_mtu(void *ctx, size_t *out) {
     vif *v = VIF(ctx);
     if (!v) return -1;
-    v->calls_mask |= VF_MTU;
-    if (v->fail & VF_MTU) return -1;
+    if (getter_fails(v, VF_MTU)) return -1;
     *out = v->mtu;
     return 0;
 }
@@ -279,14 +285,13 @@ size_t lltd_port_get_hw_id(void *dst, size_t dst_len) {
     State &s = S();
     GCALL(VG_HWID);
     if (G.fail & VG_HWID) return 0;
-    return copy_clamped(dst, dst_len, G.hwid, G.hwid_len, 0);
+    return copy_clamped(dst, dst_len, G.hwid, G.hwid_len, G.hwid_untrunc);
 }
 
 int lltd_port_get_mac_address(void *ctx, void *out_mac) {
     vif *v = VIF(ctx);
     if (!v || !out_mac) return -1;
-    v->calls_mask |= VF_MAC;
-    if (v->fail & VF_MAC) return -1;
+    if (getter_fails(v, VF_MAC)) return -1;
     memcpy(out_mac, v->mac, 6);
     return 0;
 }
@@ -297,32 +302,28 @@ uint32_t lltd_port_get_characteristics_flags(void *ctx) {
 int lltd_port_get_if_type(void *ctx, uint32_t *out) {
     vif *v = VIF(ctx);
     if (!v) return -1;
-    v->calls_mask |= VF_IFTYPE;
-    if (v->fail & VF_IFTYPE) return -1;
+    if (getter_fails(v, VF_IFTYPE)) return -1;
     *out = v->iftype;
     return 0;
 }
 int lltd_port_get_ipv4_address(void *ctx, uint32_t *out) {
     vif *v = VIF(ctx);
     if (!v) return -1;
-    v->calls_mask |= VF_IPV4;
-    if (v->fail & VF_IPV4) return -1;
+    if (getter_fails(v, VF_IPV4)) return -1;
     *out = v->ipv4_be;
     return 0;
 }
 int lltd_port_get_ipv6_address(void *ctx, uint8_t out[16]) {
     vif *v = VIF(ctx);
     if (!v) return -1;
-    v->calls_mask |= VF_IPV6;
-    if (v->fail & VF_IPV6) return -1;
+    if (getter_fails(v, VF_IPV6)) return -1;
     memcpy(out, v->ipv6, 16);
     return 0;
 }
 int lltd_port_get_link_speed_100bps(void *ctx, uint32_t *out) {
     vif *v = VIF(ctx);
     if (!v) return -1;
-    v->calls_mask |= VF_SPEED;
-    if (v->fail & VF_SPEED) return -1;
+    if (getter_fails(v, VF_SPEED)) return -1;
     *out = v->speed;
     return 0;
 }
@@ -335,39 +336,34 @@ int lltd_port_get_wifi_mode(void *ctx, uint8_t *out) {
 int lltd_port_get_bssid(void *ctx, uint8_t out[6]) {
     vif *v = VIF(ctx);
     if (!v || !v->wifi) return -1;
-    v->calls_mask |= VF_BSSID;
-    if (v->fail & VF_BSSID) return -1;
+    if (getter_fails(v, VF_BSSID)) return -1;
     memcpy(out, v->bssid, 6);
     return 0;
 }
 size_t lltd_port_get_ssid(void *ctx, void *dst, size_t dst_len) {
     vif *v = VIF(ctx);
     if (!v || !v->wifi) return 0;
-    v->calls_mask |= VF_SSID;
-    if (v->fail & VF_SSID) return 0;
+    if (getter_fails(v, VF_SSID)) return 0;
     return copy_clamped(dst, dst_len, v->ssid, v->ssid_len, v->ssid_untrunc);
 }
 int lltd_port_get_wifi_max_rate_0_5mbps(void *ctx, uint16_t *out) {
     vif *v = VIF(ctx);
     if (!v || !v->wifi) return -1;
-    v->calls_mask |= VF_RATE;
-    if (v->fail & VF_RATE) return -1;
+    if (getter_fails(v, VF_RATE)) return -1;
     *out = v->rate;
     return 0;
 }
 int lltd_port_get_wifi_rssi_dbm(void *ctx, int8_t *out) {
     vif *v = VIF(ctx);
     if (!v || !v->wifi) return -1;
-    v->calls_mask |= VF_RSSI;
-    if (v->fail & VF_RSSI) return -1;
+    if (getter_fails(v, VF_RSSI)) return -1;
     *out = v->rssi;
     return 0;
 }
 int lltd_port_get_wifi_phy_medium(void *ctx, uint32_t *out) {
     vif *v = VIF(ctx);
     if (!v || !v->wifi) return -1;
-    v->calls_mask |= VF_PHY;
-    if (v->fail & VF_PHY) return -1;
+    if (getter_fails(v, VF_PHY)) return -1;
     *out = v->phy;
     return 0;
 }
